@@ -5,9 +5,9 @@
 //   mode 1: default mjvOption, catmask all     mode 2: every vis flag on, labels and frames on
 // output per scenario:
 //   H ngeom_model needed vis_static catmask | geomgroup[6] | per geom "cat:group:alpha:type"
-//   M i type hexsize[3] hexpos[3] hexmat[9]                      (modes 0,3: model geoms)
+//   M i type hexsize[3] hexpos[3] hexmat[9]                      (model geoms: geom_size, geom_xpos, geom_xmat)
 //   S cap ngeom status canary det nwarn prefix sticky | objtype:objid:category:segid ...   (one per capacity)
-//   F k hexsize[3] hexpos[3] hexmat[9]                           (modes 0,3: geoms of the full scene)
+//   F k objid type hexsize[3] hexpos[3] hexmat[9]                (model geoms found in the unbounded scene)
 //   Z
 #include "mjgen.h"
 
@@ -16,11 +16,51 @@ static int geq(const mjvGeom* a, const mjvGeom* b) { return memcmp(a, b, sizeof(
 static void scenario(void) {
   int seed, feat, nbody, mode, optseed;
   if (scanf("%d %d %d %d %d", &seed, &feat, &nbody, &mode, &optseed) != 5) exit(2);
-  mjModel* m = mjg_model(seed, (unsigned)feat, nbody, NULL);
-  if (!m) { printf("X\nZ\n"); return; }
-  mjData* d = mj_makeData(m);
+  // mjgen model plus (in 3 of 4 scenarios) geoms on frames that are not the world frame: planes (finite
+  // and infinite), boxes, spheres, capsules, cylinders on offset+rotated jointless children of the world
+  // and on a mocap body that is moved before mj_forward
+  mjSpec* spec = mjg_spec(seed, (unsigned)feat, nbody);
   mjg_rng R = { (uint64_t)optseed * 2654435761u + 5 }; mjg_rng* r = &R;
+  int nextra = 0;
+  if (mjg_int(r, 4) != 0) {
+    mjsBody* world = mjs_findBody(spec, "world");
+    int nb = 1 + mjg_int(r, 3);
+    for (int b = 0; b <= nb; b++) {
+      mjsBody* parent = world;
+      mjsBody* bd = mjs_addBody(parent, NULL);
+      char nm[32]; snprintf(nm, sizeof nm, b == nb ? "vmocap" : "vstatic%d", b); mjs_setName(bd->element, nm);
+      if (b == nb) bd->mocap = 1;
+      for (int k = 0; k < 3; k++) bd->pos[k] = mjg_range(r, -1.5, 1.5);
+      mjg_quat(r, bd->quat);
+      int ngm = 1 + mjg_int(r, 3);
+      for (int k = 0; k < ngm; k++) {
+        mjsGeom* g = mjs_addGeom(bd, NULL);
+        int t = k == 0 ? 0 : mjg_int(r, 5);
+        g->type = t == 0 ? mjGEOM_PLANE : t == 1 ? mjGEOM_BOX : t == 2 ? mjGEOM_SPHERE : t == 3 ? mjGEOM_CAPSULE : mjGEOM_CYLINDER;
+        g->size[0] = mjg_range(r, 0.05, 0.6); g->size[1] = mjg_range(r, 0.05, 0.6); g->size[2] = mjg_range(r, 0.05, 0.3);
+        if (t == 0 && mjg_chance(r, 0.3)) g->size[mjg_int(r, 2)] = 0;      // infinite plane along one axis
+        for (int j = 0; j < 3; j++) g->pos[j] = mjg_range(r, -0.5, 0.5);
+        if (mjg_chance(r, 0.7)) mjg_quat(r, g->quat);
+        g->contype = 0; g->conaffinity = 0; g->group = mjg_int(r, 4);
+        nextra++;
+      }
+      if (b < nb && mjg_chance(r, 0.4)) {   // a nested jointless child, also static
+        mjsBody* ch = mjs_addBody(bd, NULL); for (int k = 0; k < 3; k++) ch->pos[k] = mjg_range(r, -0.5, 0.5); mjg_quat(r, ch->quat);
+        mjsGeom* g = mjs_addGeom(ch, NULL); g->type = mjGEOM_PLANE; g->size[0] = mjg_range(r, 0.1, 0.5); g->size[1] = mjg_range(r, 0.1, 0.5); g->size[2] = 0.1;
+        for (int j = 0; j < 3; j++) g->pos[j] = mjg_range(r, -0.3, 0.3);
+        mjg_quat(r, g->quat); g->contype = 0; g->conaffinity = 0; g->group = mjg_int(r, 4); nextra++;
+      }
+    }
+  }
+  mjModel* m = mj_compile(spec, NULL);
+  if (!m) { printf("X compile %s\nZ\n", mjs_getError(spec)); mj_deleteSpec(spec); return; }
+  mj_deleteSpec(spec);
+  mjData* d = mj_makeData(m);
   mjg_random_state(m, d, r, 0.3);
+  for (int i = 0; i < m->nmocap; i++) {      // move and rotate every mocap body
+    for (int k = 0; k < 3; k++) d->mocap_pos[3 * i + k] += mjg_range(r, -0.7, 0.7);
+    double q[4]; mjg_quat(r, q); for (int k = 0; k < 4; k++) d->mocap_quat[4 * i + k] = q[k];
+  }
   if (MJG_TRY) { mj_forward(m, d); MJG_END; } else { printf("X forward %s\nZ\n", mjg_last_error); return; }
   mjvOption opt; mjv_defaultOption(&opt);
   mjvCamera cam; mjv_defaultCamera(&cam);
@@ -58,22 +98,23 @@ static void scenario(void) {
   for (int g = 0; g < m->ngeom; g++)
     printf(" %d:%d:%d:%d", m->body_weldid[m->geom_bodyid[g]] == 0 ? mjCAT_STATIC : mjCAT_DYNAMIC, m->geom_group[g], m->geom_rgba[4 * g + 3] != 0, m->geom_type[g]);
   printf(" | fullstatus %d\n", scn.status);
-  if (mode == 0 || mode == 3) {
-    for (int g = 0; g < m->ngeom; g++) {
-      printf("M %d %d", g, m->geom_type[g]);
-      for (int k = 0; k < 3; k++) printf(" %a", m->geom_size[3 * g + k]);
-      for (int k = 0; k < 3; k++) printf(" %a", d->geom_xpos[3 * g + k]);
-      for (int k = 0; k < 9; k++) printf(" %a", d->geom_xmat[9 * g + k]);
-      printf("\n");
-    }
-    for (int k = 0; k < needed; k++) {
-      printf("F %d", k);
-      for (int j = 0; j < 3; j++) printf(" %a", (double)full[k].size[j]);
-      for (int j = 0; j < 3; j++) printf(" %a", (double)full[k].pos[j]);
-      for (int j = 0; j < 9; j++) printf(" %a", (double)full[k].mat[j]);
-      printf("\n");
-    }
+  for (int g = 0; g < m->ngeom; g++) {
+    printf("M %d %d", g, m->geom_type[g]);
+    for (int k = 0; k < 3; k++) printf(" %a", m->geom_size[3 * g + k]);
+    for (int k = 0; k < 3; k++) printf(" %a", d->geom_xpos[3 * g + k]);
+    for (int k = 0; k < 9; k++) printf(" %a", d->geom_xmat[9 * g + k]);
+    printf("\n");
   }
+  // every model geom of the unbounded scene: slot, objid, type, size, pos, mat
+  for (int k = 0; k < needed; k++) if (full[k].objtype == mjOBJ_GEOM && full[k].category != mjCAT_DECOR) {
+    printf("F %d %d %d", k, full[k].objid, full[k].type);
+    for (int j = 0; j < 3; j++) printf(" %a", (double)full[k].size[j]);
+    for (int j = 0; j < 3; j++) printf(" %a", (double)full[k].pos[j]);
+    for (int j = 0; j < 9; j++) printf(" %a", (double)full[k].mat[j]);
+    printf("\n");
+  }
+  int has_infinite = 0;
+  for (int g = 0; g < m->ngeom; g++) if (m->geom_type[g] == mjGEOM_PLANE && (m->geom_size[3 * g] <= 0 || m->geom_size[3 * g + 1] <= 0)) has_infinite = 1;
   // capacity sweep
   int ncap = 0; int caps[600];
   if (needed <= 120) { for (int c = 0; c <= needed + 2; c++) caps[ncap++] = c; }
@@ -97,10 +138,19 @@ static void scenario(void) {
     int nsafe = ngeom < 0 ? 0 : ngeom > cap ? cap : ngeom;
     mjvGeom* first = (mjvGeom*)malloc(sizeof(mjvGeom) * (nsafe + 1));
     memcpy(first, own, sizeof(mjvGeom) * nsafe);
-    // second update of the same scene: deterministic, status sticky
+    // further updates of the same scene: status sticky; the 2nd and 3rd update (same scene camera, which
+    // the 1st update of a fresh scene sets) must give identical scenes; without an infinite plane the
+    // 1st and 2nd must be identical too
     int det = 1, sticky = 1;
     if (MJG_TRY) { mjv_updateScene(m, d, &opt, NULL, &cam, catmask, &scn); MJG_END; } else det = 0;
-    if (scn.ngeom != ngeom) det = 0; else for (int k = 0; k < nsafe; k++) if (!geq(own + k, first + k)) det = 0;
+    int n2 = scn.ngeom < 0 ? 0 : scn.ngeom > cap ? cap : scn.ngeom;
+    if (scn.ngeom != ngeom) det = 0;
+    if (!has_infinite) for (int k = 0; k < nsafe && k < n2; k++) if (!geq(own + k, first + k)) det = 0;
+    mjvGeom* second = (mjvGeom*)malloc(sizeof(mjvGeom) * (n2 + 1));
+    memcpy(second, own, sizeof(mjvGeom) * n2);
+    if (MJG_TRY) { mjv_updateScene(m, d, &opt, NULL, &cam, catmask, &scn); MJG_END; } else det = 0;
+    if (scn.ngeom != ngeom) det = 0; else for (int k = 0; k < n2; k++) if (!geq(own + k, second + k)) det = 0;
+    free(second);
     if (status && scn.status != status) sticky = 0;
     if (!status && scn.status) sticky = 0;
     { const unsigned char* p = (const unsigned char*)(own + cap); for (size_t k = 0; k < 2 * sizeof(mjvGeom); k++) if (p[k] != 0x5A) canary = 0; }
